@@ -226,11 +226,9 @@ class ExecImpl:
                     eq = op.index("=")
                     args = tuple(parse_val(a) for a in op[2:eq])
                     v = parse_val(op[eq + 1])
-                    if c._is_valid():
-                        try:
-                            c._impl.formula.signature.bind(*args)
-                        except TypeError:
-                            return "err Type"
+                    # the assignment is made for real, also with arguments that do not fit the signature: that
+                    # modelx refuses it (TypeError from its own binding of the arguments) before changing
+                    # anything is an observation, not something the harness may answer in its place
                     c[args] = v
                     return "ok"
                 if kind == "clearat":
